@@ -130,7 +130,7 @@ func c16r3link(r *R, rule string) {
 	found := false
 	eachInstr(sc, func(i ssa.Instruction) {
 		al, ok := i.(*ssa.Alloc)
-		if !ok || !strings.HasSuffix(typeName(al.Type()), "hack.TLSClientHelloConn") {
+		if !ok || !allocOfStruct(al, "hack.TLSClientHelloConn") {
 			return
 		}
 		f := complitFields(al)
@@ -502,7 +502,7 @@ func onlyGuards(c *Ctx, b *ssa.BasicBlock, allowed ...string) string {
 	for _, g := range c.guardStrs(b) {
 		ok := false
 		for _, a := range allowed {
-			if g == a {
+			if g == canonStr(a) {
 				ok = true
 			}
 		}
